@@ -64,3 +64,17 @@ Qed.
 (** the identity as per-mode solve satisfies the solve laws *)
 Theorem qnq_id_solve_laws nr (P : Type) : qn_solve_laws Qc Qcmult Qcopp nr P (fun _ x => x).
 Proof. constructor; intros; try reflexivity. apply H; assumption. Qed.
+
+(** the scaling of np.fft.fftfreq(n, d) is [results * (1/(n*d))]; with d = 1/n as DiffEqSolver passes it, the factor
+    is exactly 1 in a field, so that the table holds the integer mode numbers of QnModes.qn_fftfreq *)
+Lemma qnq_fftfreq_scale_one (n : positive) :
+  let nq := Q2Qc (inject_Z (Zpos n)) in 1 / (nq * (1 / nq)) = 1.
+Proof.
+  intros nq. assert (H : nq <> 0).
+  { unfold nq. intros E. apply Q2Qc_eq_iff in E. unfold Qeq in E. cbn in E. lia. }
+  field. split; [exact H|]. intros E. discriminate (f_equal this E).
+Qed.
+Theorem qnq_mvals_scaled (n : positive) (i : nat) :
+  let nq := Q2Qc (inject_Z (Zpos n)) in
+  Q2Qc (inject_Z (qn_mode (Pos.to_nat n) i)) * (1 / (nq * (1 / nq))) = Q2Qc (inject_Z (qn_mode (Pos.to_nat n) i)).
+Proof. intros nq. unfold nq. rewrite qnq_fftfreq_scale_one. ring. Qed.
